@@ -26,6 +26,7 @@ CONFIGS = {
 # executor name -> translation units (source, extra defines)
 EXECUTORS = {
     "hist": [("exec/exec_hist.cpp", "-DHIST_GROUP=%d" % k) for k in range(9)] + [("exec/exec_hist.cpp", "-DHIST_DISPATCH")],
+    "bad": [("exec/exec_bad.cpp", "-DBAD_GROUP=%d" % k) for k in range(8)] + [("exec/exec_bad.cpp", "-DBAD_DISPATCH")],
     "eq": [("exec/exec_eq.cpp", "-DEQ_GROUP=%d" % k) for k in range(6)] + [("exec/exec_eq.cpp", "-DEQ_DISPATCH")],
 }
 
